@@ -114,7 +114,7 @@ theorem CInv.of_view {c c' : Chan} (h : CInv c) (v : SameView c c') : CInv c' :=
 theorem SameView.frame {c c' : Chan} (v : SameView c c') : Frame c c' :=
   ⟨v.accept, fun k h => by rw [v.remoteKey]; exact h⟩
 
-theorem CInv.fresh (key : KeyId) (accept : KeyId → Bool) (ra ka : Nat) : CInv (Chan.fresh key accept ra ka) := by
+theorem CInv.fresh (key : KeyId) (accept : KeyId → Bool) (ra ka ht : Nat) : CInv (Chan.fresh key accept ra ka ht) := by
   constructor <;> simp [Chan.fresh]
 
 /-! ## onReady -/
@@ -530,7 +530,7 @@ def Chan.expire2 (c : Chan) (now : Nat) : Chan :=
 
 def Chan.expire3 (c : Chan) (now : Nat) : Chan :=
   match c.next with
-  | some e => if e.sess.expiresAt < now then { c with next := none } else c
+  | some e => if e.sess.expiresAt < now ∨ now - (e.sess.expiresAt - c.rejectAfter) > c.hsTimeout then { c with next := none } else c
   | none => c
 
 theorem Chan.expire_eq (c : Chan) (now : Nat) : c.expire now = ((c.expire1 now).expire2 now).expire3 now := rfl
@@ -639,6 +639,35 @@ theorem Chan.step_send_fst (c : Chan) (lt : IdLt) (p : Bytes) (now : Nat) :
       | (c', some o) => (c', { sent := o.toList })).fst = _
   split <;> simp_all
 
+theorem Chan.onHandshakeAt_fst (c : Chan) (now : Nat) : (c.onHandshakeAt now).1 = (c.expire now).onHandshake.1 := rfl
+
+theorem Chan.onHandshakeAt_outs (c : Chan) (now : Nat) : (c.onHandshakeAt now).2.1 = (c.expire now).onHandshake.2 := rfl
+
+theorem Chan.step_hs_fst (c : Chan) (lt : IdLt) (now : Nat) :
+    (c.step lt (.hs now)).1 = (c.onHandshakeAt now).1 := rfl
+
+theorem Chan.step_pend_fst (c : Chan) (lt : IdLt) (now : Nat) :
+    (c.step lt (.pend now)).1 = (c.pend now).1 := rfl
+
+theorem Chan.onHandshakeAt_keeps (c : Chan) (now : Nat) (h : CInv c) : Keeps c (c.onHandshakeAt now).1 := by
+  rw [Chan.onHandshakeAt_fst]
+  have he := Chan.expire_keeps c now h
+  exact he.trans (Chan.onHandshake_keeps _ he.inv).1
+
+theorem Chan.onHandshakeAt_cur (c : Chan) (now : Nat) : (c.onHandshakeAt now).1.cur = (c.expire now).cur := rfl
+
+theorem Chan.pend_keeps (c : Chan) (now : Nat) (h : CInv c) :
+    Keeps c (c.pend now).1 ∧ (c.pend now).1.cur = (c.expire now).cur := by
+  have he := Chan.expire_keeps c now h
+  unfold Chan.pend
+  simp only []
+  split
+  · exact ⟨he, rfl⟩
+  · exact ⟨⟨he.inv.of_view ⟨rfl, rfl, rfl, rfl, rfl⟩, he.accept, he.remoteKey⟩, rfl⟩
+
+theorem Chan.unpend_keeps (c : Chan) (h : CInv c) : Keeps c c.unpend :=
+  ⟨h.of_view ⟨rfl, rfl, rfl, rfl, rfl⟩, rfl, rfl⟩
+
 theorem Chan.step_keeps (c : Chan) (lt : IdLt) (op : COp) (h : CInv c) :
     CInv (c.step lt op).1 ∧ Frame c (c.step lt op).1 := by
   cases op with
@@ -652,11 +681,19 @@ theorem Chan.step_keeps (c : Chan) (lt : IdLt) (op : COp) (h : CInv c) :
   | rekey eph now =>
     have := (Chan.onRekey_keeps c lt eph now h).1
     exact ⟨this.inv, this.frame⟩
-  | hs =>
-    have := (Chan.onHandshake_keeps c h).1
+  | hs now =>
+    rw [Chan.step_hs_fst]
+    have := Chan.onHandshakeAt_keeps c now h
     exact ⟨this.inv, this.frame⟩
   | expire now =>
     have := Chan.expire_keeps c now h
+    exact ⟨this.inv, this.frame⟩
+  | pend now =>
+    rw [Chan.step_pend_fst]
+    have := (Chan.pend_keeps c now h).1
+    exact ⟨this.inv, this.frame⟩
+  | unpend =>
+    have := Chan.unpend_keeps c h
     exact ⟨this.inv, this.frame⟩
 
 theorem Chan.run_keeps (c : Chan) (lt : IdLt) (ops : List COp) (h : CInv c) :
@@ -668,33 +705,33 @@ theorem Chan.run_keeps (c : Chan) (lt : IdLt) (ops : List COp) (h : CInv c) :
     have h2 := ih (c.step lt op).1 h1.1
     exact ⟨h2.1, h1.2.trans h2.2⟩
 
-theorem Chan.reach (key : KeyId) (accept : KeyId → Bool) (ra ka : Nat) (lt : IdLt) (ops : List COp) :
-    CInv ((Chan.fresh key accept ra ka).run lt ops) ∧ ((Chan.fresh key accept ra ka).run lt ops).accept = accept := by
-  have := Chan.run_keeps _ lt ops (CInv.fresh key accept ra ka)
+theorem Chan.reach (key : KeyId) (accept : KeyId → Bool) (ra ka ht : Nat) (lt : IdLt) (ops : List COp) :
+    CInv ((Chan.fresh key accept ra ka ht).run lt ops) ∧ ((Chan.fresh key accept ra ka ht).run lt ops).accept = accept := by
+  have := Chan.run_keeps _ lt ops (CInv.fresh key accept ra ka ht)
   exact ⟨this.1, this.2.accept⟩
 
 /-! ## C05 -/
 
-theorem never_ready_with_rejected (key : KeyId) (accept : KeyId → Bool) (ra ka : Nat) (lt : IdLt) (ops : List COp) :
-    let c := (Chan.fresh key accept ra ka).run lt ops
+theorem never_ready_with_rejected (key : KeyId) (accept : KeyId → Bool) (ra ka ht : Nat) (lt : IdLt) (ops : List COp) :
+    let c := (Chan.fresh key accept ra ka ht).run lt ops
     (∀ k, c.remoteKey = some k → accept k = true) ∧
     (∀ e, c.cur = some e → e.sess.isReady = true ∧ e.sess.rKey = c.remoteKey ∧ c.remoteKey.isSome) ∧
     (∀ e, c.prev = some e → e.sess.rKey = c.remoteKey ∧ c.remoteKey.isSome) := by
   intro c
-  obtain ⟨hinv, hacc⟩ := Chan.reach key accept ra ka lt ops
+  obtain ⟨hinv, hacc⟩ := Chan.reach key accept ra ka ht lt ops
   refine ⟨fun k hk => ?_, hinv.cur, fun e he => (hinv.prev e he).2⟩
   have := hinv.acc k hk
   rw [hacc] at this; exact this
 
-theorem never_delivers_from_rejected (key : KeyId) (accept : KeyId → Bool) (ra ka : Nat) (lt : IdLt) (ops : List COp)
+theorem never_delivers_from_rejected (key : KeyId) (accept : KeyId → Bool) (ra ka ht : Nat) (lt : IdLt) (ops : List COp)
     (w : Wire) (eph now : Nat) (p : Bytes) :
-    let c := (Chan.fresh key accept ra ka).run lt ops
+    let c := (Chan.fresh key accept ra ka ht).run lt ops
     (c.step lt (.deliver w eph now)).2.app = some p →
     ∃ k, (c.step lt (.deliver w eph now)).1.remoteKey = some k ∧ accept k = true ∧
       ∃ e, ((c.step lt (.deliver w eph now)).1.cur = some e ∨ (c.step lt (.deliver w eph now)).1.prev = some e) ∧
         e.sess.rKey = some k ∧ (e.sess.deliver w now).2 ≠ .err := by
   intro c happ
-  obtain ⟨hinv, hacc⟩ := Chan.reach key accept ra ka lt ops
+  obtain ⟨hinv, hacc⟩ := Chan.reach key accept ra ka ht lt ops
   have hp := Chan.deliver_post c lt w eph now hinv
   rw [(Chan.step_deliver c lt w eph now).2] at happ
   rw [(Chan.step_deliver c lt w eph now).1]
@@ -711,13 +748,13 @@ theorem never_delivers_from_rejected (key : KeyId) (accept : KeyId → Bool) (ra
       rw [hp.frame.accept, hacc] at this; exact this
     · rw [← hs0]; exact (Sess.deliver_app s0 w now p hr0).2.2.2.2
 
-theorem never_encrypts_to_rejected (key : KeyId) (accept : KeyId → Bool) (ra ka : Nat) (lt : IdLt) (ops : List COp)
+theorem never_encrypts_to_rejected (key : KeyId) (accept : KeyId → Bool) (ra ka ht : Nat) (lt : IdLt) (ops : List COp)
     (p : Bytes) (now : Nat) (w : Wire) :
-    let c := (Chan.fresh key accept ra ka).run lt ops
+    let c := (Chan.fresh key accept ra ka ht).run lt ops
     (c.step lt (.send p now)).2.sent = [w] →
     ∃ e k, (c.expire now).cur = some e ∧ e.sess.rKey = some k ∧ accept k = true ∧ (e.sess.send p now).2 = some w := by
   intro c hsent
-  obtain ⟨hinv, hacc⟩ := Chan.reach key accept ra ka lt ops
+  obtain ⟨hinv, hacc⟩ := Chan.reach key accept ra ka ht lt ops
   have he := Chan.expire_keeps c now hinv
   unfold Chan.step Chan.send at hsent
   simp only [] at hsent
@@ -736,43 +773,43 @@ theorem never_encrypts_to_rejected (key : KeyId) (accept : KeyId → Bool) (ra k
         | none => rw [ho] at hsent; simp at hsent
         | some w' => rw [ho] at hsent; simp at hsent; rw [hsent]
 
-theorem key_continuity (key : KeyId) (accept : KeyId → Bool) (ra ka : Nat) (lt : IdLt) (ops : List COp) (op : COp) (k : KeyId) :
-    let c := (Chan.fresh key accept ra ka).run lt ops
+theorem key_continuity (key : KeyId) (accept : KeyId → Bool) (ra ka ht : Nat) (lt : IdLt) (ops : List COp) (op : COp) (k : KeyId) :
+    let c := (Chan.fresh key accept ra ka ht).run lt ops
     c.remoteKey = some k → (c.step lt op).1.remoteKey = some k := by
   intro c hk
-  obtain ⟨hinv, -⟩ := Chan.reach key accept ra ka lt ops
+  obtain ⟨hinv, -⟩ := Chan.reach key accept ra ka ht lt ops
   exact (Chan.step_keeps c lt op hinv).2.kc k hk
 
-theorem foreign_handshake_leaves_current (key : KeyId) (accept : KeyId → Bool) (ra ka : Nat) (lt : IdLt) (ops : List COp)
+theorem foreign_handshake_leaves_current (key : KeyId) (accept : KeyId → Bool) (ra ka ht : Nat) (lt : IdLt) (ops : List COp)
     (w : Wire) (eph now : Nat) (e : Entry) :
-    let c := (Chan.fresh key accept ra ka).run lt ops
+    let c := (Chan.fresh key accept ra ka ht).run lt ops
     c.cur = some e →
     let c' := (c.step lt (.deliver w eph now)).1
     (∃ e', c'.cur = some e' ∧ e'.sess.eph = e.sess.eph) ∨
     (∃ e' p', c'.cur = some e' ∧ c'.prev = some p' ∧ p'.sess.eph = e.sess.eph ∧ e'.sess.rKey = c.remoteKey) := by
   intro c hcur c'
-  obtain ⟨hinv, -⟩ := Chan.reach key accept ra ka lt ops
+  obtain ⟨hinv, -⟩ := Chan.reach key accept ra ka ht lt ops
   exact (Chan.deliver_post c lt w eph now hinv).fh e hcur
 
 /-! ## C07: slot discipline, make-before-break, keep-alive -/
 
-theorem slots_inv (key : KeyId) (accept : KeyId → Bool) (ra ka : Nat) (lt : IdLt) (ops : List COp) :
-    let c := (Chan.fresh key accept ra ka).run lt ops
+theorem slots_inv (key : KeyId) (accept : KeyId → Bool) (ra ka ht : Nat) (lt : IdLt) (ops : List COp) :
+    let c := (Chan.fresh key accept ra ka ht).run lt ops
     (∀ e, c.prev = some e → e.sess.isReady = true) ∧ (∀ e, c.cur = some e → e.sess.isReady = true) ∧
     (∀ e, c.next = some e → e.sess.isReady = false) := by
   intro c
-  obtain ⟨hinv, -⟩ := Chan.reach key accept ra ka lt ops
+  obtain ⟨hinv, -⟩ := Chan.reach key accept ra ka ht lt ops
   exact ⟨fun e he => (hinv.prev e he).1, fun e he => (hinv.cur e he).1, hinv.next⟩
 
-theorem make_before_break (key : KeyId) (accept : KeyId → Bool) (ra ka : Nat) (lt : IdLt) (ops : List COp) (op : COp) :
-    let c := (Chan.fresh key accept ra ka).run lt ops
+theorem make_before_break (key : KeyId) (accept : KeyId → Bool) (ra ka ht : Nat) (lt : IdLt) (ops : List COp) (op : COp) :
+    let c := (Chan.fresh key accept ra ka ht).run lt ops
     c.cur.isSome →
     (match op with
-     | .deliver .. | .hs => True
-     | .send _ now | .rekey _ now | .expire now => (c.expire now).cur.isSome) →
+     | .deliver .. | .unpend => True
+     | .send _ now | .rekey _ now | .expire now | .hs now | .pend now => (c.expire now).cur.isSome) →
     (c.step lt op).1.cur.isSome := by
   intro c hcur hop
-  obtain ⟨hinv, -⟩ := Chan.reach key accept ra ka lt ops
+  obtain ⟨hinv, -⟩ := Chan.reach key accept ra ka ht lt ops
   cases op with
   | deliver w eph now =>
     cases hc : c.cur with
@@ -786,8 +823,12 @@ theorem make_before_break (key : KeyId) (accept : KeyId → Bool) (ra ka : Nat) 
   | rekey eph now =>
     show ((c.onRekey lt eph now).cur.isSome : Prop)
     rw [(Chan.onRekey_keeps c lt eph now hinv).2]; exact hop
-  | hs => exact hcur
+  | hs now =>
+    rw [Chan.step_hs_fst, Chan.onHandshakeAt_cur]; exact hop
   | expire now => exact hop
+  | pend now =>
+    rw [Chan.step_pend_fst, (Chan.pend_keeps c now hinv).2]; exact hop
+  | unpend => exact hcur
 
 theorem Chan.expire_cur_keep (c : Chan) (e : Entry) (now : Nat) (hcur : c.cur = some e)
     (h1 : now ≤ e.sess.expiresAt) (h2 : now - c.lastReceived ≤ c.keepAlive) : (c.expire now).cur = some e := by
@@ -812,13 +853,13 @@ theorem Chan.expire_cur_keep (c : Chan) (e : Entry) (now : Nat) (hcur : c.cur = 
     · rfl
   rw [e3, e2]
 
-theorem keepalive_sound (key : KeyId) (accept : KeyId → Bool) (ra ka : Nat) (lt : IdLt) (ops : List COp) :
-    let c := (Chan.fresh key accept ra ka).run lt ops
+theorem keepalive_sound (key : KeyId) (accept : KeyId → Bool) (ra ka ht : Nat) (lt : IdLt) (ops : List COp) :
+    let c := (Chan.fresh key accept ra ka ht).run lt ops
     (∀ e w now p, c.cur = some e → (e.sess.deliver w now).2 = .app p →
         (c.deliverSlot 1 w now).1.lastReceived = now ∧ (c.deliverSlot 1 w now).2 = some (some { app := some p })) ∧
     (∀ e now, c.cur = some e → now ≤ e.sess.expiresAt → now - c.lastReceived ≤ c.keepAlive → (c.expire now).cur = some e) := by
   intro c
-  obtain ⟨hinv, -⟩ := Chan.reach key accept ra ka lt ops
+  obtain ⟨hinv, -⟩ := Chan.reach key accept ra ka ht lt ops
   refine ⟨?_, fun e now => Chan.expire_cur_keep c e now⟩
   intro e w now p hcur happ
   have ha := Sess.deliver_app e.sess w now p happ
@@ -900,15 +941,15 @@ theorem Chan.deliver_hello_new (c : Chan) (lt : IdLt) (e : Nat) (k : KeyId) (t e
   simp only [Bool.not_true, Bool.false_eq_true, if_false]
   rw [Sess.new_resp_deliver_hello]
 
-theorem Chan.onRekey_fresh (key : KeyId) (accept : KeyId → Bool) (ra ka : Nat) (lt : IdLt) (eph t : Nat) :
-    (Chan.fresh key accept ra ka).onRekey lt eph t =
-    { key, accept, rejectAfter := ra, keepAlive := ka,
+theorem Chan.onRekey_fresh (key : KeyId) (accept : KeyId → Bool) (ra ka ht : Nat) (lt : IdLt) (eph t : Nat) :
+    (Chan.fresh key accept ra ka ht).onRekey lt eph t =
+    { key, accept, rejectAfter := ra, keepAlive := ka, hsTimeout := ht,
       next := some ⟨.initHello eph (helloOf key t), Sess.new true key eph t ra⟩,
       rekeyPending := true, hsPending := true } := rfl
 
 /-- both sides hold their own initiator session and receive the other's InitHello -/
-theorem tie_side (k k' : KeyId) (ra ka : Nat) (lt : IdLt) (t t' eph eph' e now : Nat) (hne : eph ≠ eph') :
-    (((Chan.fresh k (fun _ => true) ra ka).onRekey lt eph t).deliver lt
+theorem tie_side (k k' : KeyId) (ra ka ht : Nat) (lt : IdLt) (t t' eph eph' e now : Nat) (hne : eph ≠ eph') :
+    (((Chan.fresh k (fun _ => true) ra ka ht).onRekey lt eph t).deliver lt
       (.initHello eph' (helloOf k' t')) e now).1.next.map (·.id) =
     some (if lt (.initHello eph (helloOf k t)) (.initHello eph' (helloOf k' t')) = true
       then .initHello eph (helloOf k t) else .initHello eph' (helloOf k' t')) := by
@@ -922,10 +963,10 @@ theorem tie_side (k k' : KeyId) (ra ka : Nat) (lt : IdLt) (t t' eph eph' e now :
   simp
   split <;> simp_all
 
-theorem tie_break_converges (kA kB : KeyId) (ra ka : Nat) (lt : IdLt) (tA tB ephA ephB eA' eB' now : Nat)
+theorem tie_break_converges (kA kB : KeyId) (ra ka ht : Nat) (lt : IdLt) (tA tB ephA ephB eA' eB' now : Nat)
     (hlt : ∀ a b, a ≠ b → (lt a b = true ↔ lt b a = false)) (hne : ephA ≠ ephB) :
-    let A := (Chan.fresh kA (fun _ => true) ra ka).onRekey lt ephA tA
-    let B := (Chan.fresh kB (fun _ => true) ra ka).onRekey lt ephB tB
+    let A := (Chan.fresh kA (fun _ => true) ra ka ht).onRekey lt ephA tA
+    let B := (Chan.fresh kB (fun _ => true) ra ka ht).onRekey lt ephB tB
     ∀ a b, A.next.map (·.id) = some a → B.next.map (·.id) = some b →
       let A' := (A.deliver lt b eA' now).1
       let B' := (B.deliver lt a eB' now).1
@@ -939,8 +980,8 @@ theorem tie_break_converges (kA kB : KeyId) (ra ka : Nat) (lt : IdLt) (tA tB eph
     rw [this] at hb; exact (Option.some.inj hb).symm
   subst ha' hb'
   intro A' B'
-  have hA := tie_side kA kB ra ka lt tA tB ephA ephB eA' now hne
-  have hB := tie_side kB kA ra ka lt tB tA ephB ephA eB' now (Ne.symm hne)
+  have hA := tie_side kA kB ra ka ht lt tA tB ephA ephB eA' now hne
+  have hB := tie_side kB kA ra ka ht lt tB tA ephB ephA eB' now (Ne.symm hne)
   show (A.deliver lt _ eA' now).1.next.map (·.id) = (B.deliver lt _ eB' now).1.next.map (·.id) ∧ _
   show _ ∧ ((A.deliver lt _ eA' now).1.next.map (·.id) = _ ∨ (A.deliver lt _ eA' now).1.next.map (·.id) = _)
   rw [hA, hB]
